@@ -5,6 +5,7 @@ import (
 	"errors"
 	"io"
 	"net"
+	"os"
 	"sync"
 	"syscall"
 	"time"
@@ -44,6 +45,40 @@ func poke(c chan struct{}) {
 }
 
 // SimConn is one end of a simulated stream; it implements net.Conn.
+// readDeadline gives the simulated sockets a working SetReadDeadline (fake clock): a blocked read is woken when the
+// deadline changes or passes and fails with os.ErrDeadlineExceeded, as a kernel socket's does.
+type readDeadline struct {
+	mu sync.Mutex
+	t  time.Time
+	ch chan struct{} // closed when the deadline changes
+}
+
+func (d *readDeadline) set(t time.Time) {
+	d.mu.Lock()
+	d.t = t
+	if d.ch != nil {
+		close(d.ch)
+	}
+	d.ch = make(chan struct{})
+	d.mu.Unlock()
+}
+
+// state: expired now? plus what to wait on besides data (change of the deadline, its passing)
+func (d *readDeadline) state() (expired bool, changed <-chan struct{}, timer <-chan time.Time) {
+	d.mu.Lock()
+	defer d.mu.Unlock()
+	if d.ch == nil {
+		d.ch = make(chan struct{})
+	}
+	if !d.t.IsZero() {
+		if !time.Now().Before(d.t) {
+			return true, d.ch, nil
+		}
+		timer = time.After(time.Until(d.t))
+	}
+	return false, d.ch, timer
+}
+
 type SimConn struct {
 	in, out      *halfPipe
 	laddr, raddr net.Addr
@@ -54,6 +89,7 @@ type SimConn struct {
 	WriteErr     error // injected: every Write fails with it
 	// EOFWithData: the Read that takes the last bytes before the peer's FIN returns them together with io.EOF
 	EOFWithData bool
+	rd          readDeadline
 }
 
 // NewStream creates a connected pair of simulated stream ends.
@@ -108,9 +144,15 @@ func (c *SimConn) Read(b []byte) (int, error) {
 			return 0, io.EOF
 		}
 		h.mu.Unlock()
+		expired, changed, timer := c.rd.state()
+		if expired {
+			return 0, os.ErrDeadlineExceeded
+		}
 		select {
 		case <-h.rwake:
 		case <-c.closed:
+		case <-changed:
+		case <-timer:
 		}
 	}
 }
@@ -169,11 +211,11 @@ func (c *SimConn) Close() error {
 // ClosedCh is closed when this end has been closed locally.
 func (c *SimConn) ClosedCh() <-chan struct{} { return c.closed }
 
-func (c *SimConn) LocalAddr() net.Addr              { return c.laddr }
-func (c *SimConn) RemoteAddr() net.Addr             { return c.raddr }
-func (c *SimConn) SetDeadline(time.Time) error      { return nil }
-func (c *SimConn) SetReadDeadline(time.Time) error  { return nil }
-func (c *SimConn) SetWriteDeadline(time.Time) error { return nil }
+func (c *SimConn) LocalAddr() net.Addr               { return c.laddr }
+func (c *SimConn) RemoteAddr() net.Addr              { return c.raddr }
+func (c *SimConn) SetDeadline(t time.Time) error     { c.rd.set(t); return nil }
+func (c *SimConn) SetReadDeadline(t time.Time) error { c.rd.set(t); return nil }
+func (c *SimConn) SetWriteDeadline(time.Time) error  { return nil }
 
 // --- simulator-side controls (simulator goroutine only)
 
@@ -348,6 +390,7 @@ type SimPacketConn struct {
 	hsDone       bool
 	env          *Env
 	OutAt        []time.Duration // write times of Out (simulated)
+	rd           readDeadline
 }
 
 func NewPacketConn(e *Env, l, r *net.UDPAddr) *SimPacketConn {
@@ -390,9 +433,15 @@ func (c *SimPacketConn) Read(b []byte) (int, error) {
 			return copy(b, r), nil
 		}
 		c.mu.Unlock()
+		expired, changed, timer := c.rd.state()
+		if expired {
+			return 0, os.ErrDeadlineExceeded
+		}
 		select {
 		case <-c.rwake:
 		case <-c.closed:
+		case <-changed:
+		case <-timer:
 		}
 	}
 }
@@ -440,11 +489,11 @@ func (c *SimPacketConn) IsClosed() bool {
 		return false
 	}
 }
-func (c *SimPacketConn) LocalAddr() net.Addr              { return c.laddr }
-func (c *SimPacketConn) RemoteAddr() net.Addr             { return c.raddr }
-func (c *SimPacketConn) SetDeadline(time.Time) error      { return nil }
-func (c *SimPacketConn) SetReadDeadline(time.Time) error  { return nil }
-func (c *SimPacketConn) SetWriteDeadline(time.Time) error { return nil }
+func (c *SimPacketConn) LocalAddr() net.Addr               { return c.laddr }
+func (c *SimPacketConn) RemoteAddr() net.Addr              { return c.raddr }
+func (c *SimPacketConn) SetDeadline(t time.Time) error     { c.rd.set(t); return nil }
+func (c *SimPacketConn) SetReadDeadline(t time.Time) error { c.rd.set(t); return nil }
+func (c *SimPacketConn) SetWriteDeadline(time.Time) error  { return nil }
 
 // Deliver hands one record to the reader.
 func (c *SimPacketConn) Deliver(b []byte) {
